@@ -2,7 +2,7 @@
 From Coq Require Import ZArith NArith List Bool Reals Floats.
 From PV Require Import Num NumR model.Optimiser model.OptSpec proofs.OptStruct proofs.OptLoop proofs.FloatFacts proofs.FloatZero proofs.HillClimb proofs.RealFacts.
 From PV Require Import model.Cli gen.GenCli proofs.CliFacts.
-From PV Require Import gen.GenFns proofs.SourceFacts.
+From PV Require Import gen.GenFns model.Iter model.Pipeline proofs.ListLemmas proofs.SrcOpt.
 
 Theorem C18_kt_schedule :
   forall (NN : Num) (fexp : carrier NN -> carrier NN) (score : N -> list (carrier NN) -> option
@@ -139,10 +139,6 @@ Theorem C18_cooling_factor_is_source :
 Proof. exact cooling_factor_is_source. Qed.
 Print Assumptions C18_cooling_factor_is_source.
 
-Theorem C18_source_translated :
-  gen_fns_problem = String.EmptyString.
-Proof. exact source_translated. Qed.
-Print Assumptions C18_source_translated.
 
 
 Theorem C18_loops_is_source :
@@ -195,4 +191,18 @@ Theorem S_build_is_source :
     NN fpow b = build NN fpow b.
 Proof. exact build_is_source. Qed.
 Print Assumptions S_build_is_source.
+
+
+Theorem C18_optimiser_source_translated :
+  translated_gen_energy_surface = true /\ translated_gen_test_acceptance = true /\
+    translated_gen_accept_score = true /\ translated_gen_cooling_factor = true /\
+    translated_gen_build = true /\ translated_gen_inner_steps = true /\ translated_gen_loops =
+    true /\ translated_gen_converged = true /\ translated_gen_ratio_update = true /\
+    translated_gen_init = true /\ translated_gen_init_count = true /\ translated_gen_loop_head =
+    true /\ translated_gen_inner_count = true /\ translated_gen_final_ok = true /\
+    translated_gen_mc_step = true /\ translated_gen_end_loop = true /\ translated_gen_clamp =
+    true /\ translated_gen_sample = true /\ translated_gen_reset_value = true /\
+    translated_gen_set_sampled = true.
+Proof. exact optimiser_source_translated. Qed.
+Print Assumptions C18_optimiser_source_translated.
 
